@@ -174,7 +174,8 @@ theorem tol_pos : 0 < tol := by
   unfold tol; positivity
 
 /-- declared constant: `Line2::TOLERANCE` is `1e-12` -/
-theorem declared_tolerance : Generated.lineTolerance = .lit 1 1000000000000 := by decide
+theorem declared_tolerance :
+    Generated.lineTolerance = .lit 1 1000000000000 ∧ Generated.lineUnrecognised = [] := by decide
 
 /-- the model's tolerance at the carrier ℝ is `tol` -/
 theorem lineTol_eq : (lineTol : ℝ) = tol := by
